@@ -55,12 +55,3 @@ Proof.
   apply existsb_exists. exists kv. split; [exact Hin|apply N.eqb_eq; exact Ek].
 Qed.
 
-Lemma seq_gc_refuses_lock : forall st s e sp,
-  (snd (step st (GC s e sp)) = RErr (Some (EAbort AGcLock)) <-> gc_refused st s e sp = true)
-  /\ (gc_refused st s e sp = true -> fst (step st (GC s e sp)) = st)
-  /\ (gc_refused st s e sp = false -> snd (step st (GC s e sp)) = RErr None).
-Proof.
-  intros. unfold gc_refused. cbn [step]. destruct (existsb (gc_blocked sp) (keys_in_range st s e)); cbn [fst snd].
-  - repeat split; auto; discriminate.
-  - repeat split; auto; discriminate.
-Qed.
